@@ -152,9 +152,10 @@ def readDynamic (r : BitReader) : Option (Huff × Huff × BitReader) := do
   let ll := lengths.extract 0 nlen
   let dl := lengths.extract nlen (nlen + ndist)
   let l1 := huffLeft ll
-  if l1 < 0 ∨ (l1 > 0 ∧ nlen - (ll.filter (· = 0)).size ≠ 1) then none else
+  -- incomplete codes are allowed only when every used code has length 1 (zlib `puff`: count[0] + count[1] = n)
+  if l1 < 0 ∨ (l1 > 0 ∧ (ll.filter (fun x => x = 0 ∨ x = 1)).size ≠ nlen) then none else
   let l2 := huffLeft dl
-  if l2 < 0 ∨ (l2 > 0 ∧ ndist - (dl.filter (· = 0)).size ≠ 1) then none else
+  if l2 < 0 ∨ (l2 > 0 ∧ (dl.filter (fun x => x = 0 ∨ x = 1)).size ≠ ndist) then none else
   pure (mkHuff ll, mkHuff dl, rd)
 
 /-- raw deflate stream; returns output and the reader after the final block -/
